@@ -96,6 +96,16 @@ pub fn exec(tag: i64, inp: &[i64]) -> Vec<i64> {
                     enc_slots(&r, &mut o);
                     enc_slots(&s, &mut o);
                     enc_slots(&a, &mut o);
+                    // third-party factories (only from_bytes_unchecked is theirs) get the same bytes
+                    let same = region(|| {
+                        let g: [Option<Getters>; 4] = m.to_short_messages(ord);
+                        let t: [Option<Tuple>; 4] = m.into();
+                        (0..4).all(|i| {
+                            g[i].map(|x| bytes_of(&x)) == r[i].map(|x| bytes_of(&x))
+                                && t[i].map(|x| bytes_of(&x)) == a[i].map(|x| bytes_of(&x))
+                        })
+                    });
+                    o.push(same.map(|b| b as i64).unwrap_or(PANIC));
                     o
                 }
             }
